@@ -85,6 +85,10 @@ def impl(case):
     build(case["tree"], names, cls, None, index)
     out = []
     for q in case["queries"]:
+        if q["fn"] == "rename":
+            setattr(index[q["label"]], pathattr, q["name"])      # renamed between two queries
+            out.append({"ok": None})
+            continue
         r = Resolver(pathattr, ignorecase=q["ignorecase"], relax=q["relax"])
         start = index[q["start"]]
         try:
